@@ -96,3 +96,56 @@ def concat_obligations(prefix, sets):
                                  "concatenation of what each command emits alone", "time": round(time.time() - t0, 3),
                         "replay": {"failures": fails[:3]}, "replay_confirmed": bool(fails)})
     return out
+
+
+def scope_obligations(prefix, sets):
+    """the code emitted for a command inside a helper function body, a branch or a loop is the code emitted for it in setup() (modulo
+    indentation): the fragment contracts, harvested in setup()/loop(), then hold in every scope"""
+    import time
+    from contracts.c08 import real
+    P, E = real("Reduino.transpile.parser"), real("Reduino.transpile.emitter")
+    out = []
+    for name, (decl, sts) in sets.items():
+        t0 = time.time()
+        fails, n = [], 0
+        base = E.emit(P.parse(CONCAT_PRE + decl + "\nc = 1\n"))
+        _, bs, _ = sections(base)
+        for st in sts:
+            try:
+                ref = E.emit(P.parse(CONCAT_PRE + decl + "\nc = 1\n" + st + "\n"))
+            except Exception:
+                continue
+            _, s1, _ = sections(ref)
+            want = [l.strip() for l in added(bs, s1)]
+            for scope, tmpl, opener in (("helper function", "def act():\n    {body}\nact()\n", "void act() {"), ("main loop", "while True:\n    {body}\n    sleep(5)\n", "void loop() {"),
+                                        ("branch in a helper", "def act():\n    if c > 0:\n        {body}\nact()\n", "void act() {")):
+                n += 1
+                try:
+                    cpp = E.emit(P.parse(CONCAT_PRE + decl + "\nc = 1\n" + tmpl.format(body=st)))
+                except Exception as ex:
+                    fails.append({"command": st, "scope": scope, "problem": f"rejected in this scope: {type(ex).__name__}: {ex}"})
+                    continue
+                if opener not in cpp:
+                    fails.append({"command": st, "scope": scope, "problem": f"no `{opener}` in the sketch"})
+                    continue
+                body = cpp[cpp.index(opener) + len(opener):]
+                depth, end = 1, 0
+                for i, ch in enumerate(body):
+                    depth += ch == "{"
+                    depth -= ch == "}"
+                    if depth == 0:
+                        end = i
+                        break
+                got = [l.strip() for l in body[:end].splitlines() if l.strip()]
+                got = [l for l in got if l not in ("delay(5);", "if ((c > 0)) {", "}") or l in want]
+                # the command's lines must appear, in order and contiguously, in the scope's body
+                joined, w = "\n".join(got), "\n".join(want)
+                if w and w not in joined:
+                    k = next((i for i, l in enumerate(want) if l not in got), 0)
+                    fails.append({"command": st, "scope": scope, "first_line_missing_or_changed": want[k] if want else None, "emitted_in_scope": got[:12]})
+            if len(fails) >= 6:
+                break
+        out.append({"name": f"{prefix}/scope/{name}", "status": "discharged" if not fails else "sat", "backend": "enum",
+                    "where": f"{name}: for {len(sts)} commands x 3 scopes (helper body, main loop, branch in a helper) the emitted code is the code emitted in setup()",
+                    "time": round(time.time() - t0, 3), "replay": {"failures": fails[:3]}, "replay_confirmed": bool(fails)})
+    return out
